@@ -370,3 +370,29 @@ def ob_restored_independent(o1: int, o2: int, o3: int, o4: int) -> bool:
 OBLIGATIONS.append(Ob('restored_templates_independent', ob_restored_independent, ['0 <= o%d < 6' % i for i in (1, 2, 3, 4)], timeout=tier(250, 900), path_timeout=60,
                       data='-', selectors='four templates without defaults (unpickled HTML, deep-copied HTML, fresh HTML, unpickled String); histories of 4 operations '
                       '(default()/var() on template i, pickle round trip, deep copy); all four rendered after every step', stubs='runs untraced once the selectors are fixed on the path'))
+
+
+# ---------------------------------------------------------------- a rendering started while another rendering of the same object is in progress
+SRC_REENT = ('<dtml-in seq mapping>[<dtml-var sequence-number>/<dtml-var sequence-length><dtml-if sequence-start>S</dtml-if><dtml-if sequence-end>E</dtml-if>'
+             '<dtml-if "kids is not None and v == at">(<dtml-var "T(None, _, seq=kids, kids=None)">)</dtml-if>]</dtml-in>'
+             '|<dtml-in seq mapping size=2 start=1><dtml-var sequence-number><dtml-if "kids is not None and v == at">(<dtml-var "T(None, _, seq=kids, kids=None)">)</dtml-if></dtml-in>')
+
+
+def ob_reentrant_render(n: int, at: int, kn: int) -> bool:
+    """the nested rendering is produced by THE SAME template object or by a second object built from the same source: the results are
+    equal (nothing of the inner rendering survives on the compiled tags of the outer one)"""
+    nn, kk = pick(n, 3) + 1, pick(kn, 3) + 1
+    a = pick(at, nn)
+    with NoTracing():
+        t1, t2 = HTML(SRC_REENT), HTML(SRC_REENT)
+        seq = [{'v': i} for i in range(nn)]
+        kids = [{'v': 100 + j} for j in range(kk)]
+        same = t1(T=t1, seq=seq, kids=kids, at=a)
+        other = t1(T=t2, seq=seq, kids=kids, at=a)
+        again = t1(T=t1, seq=seq, kids=kids, at=a)
+        return same == other and again == same
+
+
+OBLIGATIONS.append(Ob('reentrant_render', ob_reentrant_render, ['0 <= n < 3', '0 <= at < 3', '0 <= kn < 3'], timeout=tier(200, 600), path_timeout=60, data='-',
+                      selectors='outer length 1..3, position whose element renders children, child length 1..3; nested rendering by the same object vs by a twin object (unbatched and batched loops)',
+                      stubs='runs untraced once the selectors are fixed on the path'))
